@@ -163,6 +163,53 @@ theorem cc_opb_spec (n k c : Nat) (α : Assign) :
       CCSpec n k c (ccE n α) (ccQrel n α) (ccRrel n k c α) := by
   rw [Formula.toOPB_holds α _ (cc_wf n k c)]; exact cc_spec n k c α
 
+/-- the specification only looks at in-range indices (and at pairs `u < v`) -/
+theorem CCSpec_congr {n k c : Nat} {E E' Q Q' R R' : Nat → Nat → Prop}
+    (hE : ∀ u v, 1 ≤ u → u < v → v ≤ n → (E u v ↔ E' u v))
+    (hQ : ∀ i v, 1 ≤ i → i ≤ k → 1 ≤ v → v ≤ n → (Q i v ↔ Q' i v))
+    (hR : ∀ v l, 1 ≤ v → v ≤ n → 1 ≤ l → l ≤ c → (R v l ↔ R' v l)) :
+    CCSpec n k c E Q R → CCSpec n k c E' Q' R' := by
+  rintro ⟨a1, a2, a3, a4, a5, a6, a7⟩
+  refine ⟨?_, ?_, ?_, ?_, ?_, ?_, ?_⟩
+  · intro i x y
+    obtain ⟨v, p, q, r⟩ := a1 i x y
+    exact ⟨v, p, q, (hQ i v x y p q).1 r⟩
+  · intro i x y v p q v' p' q' e e'
+    exact a2 i x y v p q v' p' q' ((hQ i v x y p q).2 e) ((hQ i v' x y p' q').2 e')
+  · intro v x y i p q i' p' q' e e'
+    exact a3 v x y i p q i' p' q' ((hQ i v p q x y).2 e) ((hQ i' v p' q' x y).2 e')
+  · intro u v x y z i p q j p' q' hij e e'
+    exact (hE u v x y z).1 (a4 u v x y z i p q j p' q' hij
+      ((hQ i u p q x (by omega)).2 e) ((hQ j v p' q' (by omega) z).2 e'))
+  · intro v x y
+    obtain ⟨l, p, q, r⟩ := a5 v x y
+    exact ⟨l, p, q, (hR v l x y p q).1 r⟩
+  · intro v x y l p q l' p' q' e e'
+    exact a6 v x y l p q l' p' q' ((hR v l x y p q).2 e) ((hR v l' x y p' q').2 e')
+  · intro u v x y z l p q e ⟨f, f'⟩
+    exact a7 u v x y z l p q ((hE u v x y z).2 e)
+      ⟨(hR u l x (by omega) p q).2 f, (hR v l (by omega) z p q).2 f'⟩
+
+/-- every triple (graph, clique map, colouring) with the documented properties is described
+by a satisfying assignment -/
+theorem cc_realises (n k c : Nat) (E Q R : Nat → Nat → Bool)
+    (h : CCSpec n k c (fun u v => E u v = true) (fun i v => Q i v = true) (fun v l => R v l = true)) :
+    (cliqueColoringF n k c).holds (ccAssign n k c E Q R) = true := by
+  rw [cc_spec]
+  refine CCSpec_congr ?_ ?_ ?_ h
+  · intro u v a b c'
+    have := ccAssign_e n k c E Q R (mem_pairs_idx.2 ⟨a, b, c'⟩)
+    simp only [ccEVar] at this
+    simp only [ccE, this]
+  · intro i v a b c' d
+    have := ccAssign_q n k c E Q R a b c' d
+    simp only [ccQ, UMap.var] at this
+    simp only [ccQrel, ccNE, this]
+  · intro v l a _ c' d
+    have := ccAssign_r n k c E Q R a c' d
+    simp only [ccR, UMap.var] at this
+    simp only [ccRrel, ccNE, this]
+
 /-- T-C01.5 corollary: a graph on `n` vertices with a `k`-clique and a `c`-colouring exists
 exactly when `k ≤ n`, `k ≤ c` and (if there is a vertex at all) there is a colour.
 In particular `k = c + 1` is unsatisfiable. -/
@@ -194,39 +241,25 @@ theorem cc_sat_iff (n k c : Nat) :
       · obtain ⟨l, hl1, hl2, _⟩ := a5 1 (by omega) h
         right; omega
   · rintro ⟨hkn, hkc, hnc⟩
-    refine ⟨ccWitness n k c, (cc_spec n k c _).2 ?_⟩
-    have hE : ∀ u v, 1 ≤ u → u < v → v ≤ n → (ccE n (ccWitness n k c) u v ↔ v ≤ k) := by
-      intro u v a b c'
-      have := ccWitness_e n k c (mem_pairs_idx.2 ⟨a, b, c'⟩)
-      simp only [ccEVar] at this
-      simp only [ccE, this, decide_eq_true_eq]
-    have hQ : ∀ i v, 1 ≤ i → i ≤ k → 1 ≤ v → v ≤ n → (ccQrel n (ccWitness n k c) i v ↔ i = v) := by
-      intro i v a b c' d
-      have := ccWitness_q n k c a b c' d
-      simp only [ccQ, UMap.var] at this
-      simp only [ccQrel, ccNE, this, beq_iff_eq]
-    have hR : ∀ v l, 1 ≤ v → 1 ≤ l → l ≤ c → (ccRrel n k c (ccWitness n k c) v l ↔ l = min v c) := by
-      intro v l a b c'
-      have := ccWitness_r n k c a b c'
-      simp only [ccR, UMap.var] at this
-      simp only [ccRrel, ccNE, this, beq_iff_eq]
-    refine ⟨?_, ?_, ?_, ?_, ?_, ?_, ?_⟩
-    · intro i a b; exact ⟨i, a, by omega, (hQ i i a b a (by omega)).2 rfl⟩
-    · intro i a b v c' d v' e f h h'
-      rw [hQ i v a b c' d] at h; rw [hQ i v' a b e f] at h'; omega
-    · intro v a b i c' d i' e f h h'
-      rw [hQ i v c' d a b] at h; rw [hQ i' v e f a b] at h'; omega
-    · intro u v a b c' i d e j f g _ h h'
-      rw [hQ j v f g (by omega) c'] at h'
-      rw [hE u v a b c']; omega
+    -- clique = the first k vertices (member i is vertex i), vertex v gets colour min v c
+    refine ⟨_, cc_realises n k c (fun _ v => decide (v ≤ k)) (fun i v => i == v)
+      (fun v l => l == min v c) ⟨?_, ?_, ?_, ?_, ?_, ?_, ?_⟩⟩
+    · intro i a b; exact ⟨i, a, by omega, by simp⟩
+    · intro i _ _ v _ _ v' _ _ h h'
+      simp only [beq_iff_eq] at h h'; omega
+    · intro v _ _ i _ _ i' _ _ h h'
+      simp only [beq_iff_eq] at h h'; omega
+    · intro u v _ _ _ i _ _ j _ g _ _ h'
+      simp only [beq_iff_eq] at h'
+      simp only [decide_eq_true_eq]; omega
     · intro v a b
       have hc1 : 1 ≤ c := by omega
-      exact ⟨min v c, by omega, by omega, (hR v _ a (by omega) (by omega)).2 rfl⟩
-    · intro v a b l c' d l' e f h h'
-      rw [hR v l a c' d] at h; rw [hR v l' a e f] at h'; omega
-    · intro u v a b c' l d e hEuv ⟨h, h'⟩
-      rw [hE u v a b c'] at hEuv
-      rw [hR u l a d e] at h; rw [hR v l (by omega) d e] at h'
+      exact ⟨min v c, by omega, by omega, by simp⟩
+    · intro v _ _ l _ _ l' _ _ h h'
+      simp only [beq_iff_eq] at h h'; omega
+    · intro u v _ _ _ l _ _ hEuv ⟨h, h'⟩
+      simp only [decide_eq_true_eq] at hEuv
+      simp only [beq_iff_eq] at h h'
       omega
 
 end Cnfgen.C01
